@@ -37,6 +37,14 @@ EXCEPTIONS = {
 }
 
 
+WARNING_CATEGORIES = {
+    'RuntimeWarning': RuntimeWarning,
+    'UserWarning': UserWarning,
+    'FutureWarning': FutureWarning,
+    'DeprecationWarning': DeprecationWarning,
+}
+
+
 class Ctl:
     """Per-instance controller: plan in, log out. Copies start with a fresh controller."""
 
@@ -88,12 +96,13 @@ def _perform(self, t, act, endo):
         exc = EXCEPTIONS[act['exc']](f"injected {act['exc']}")
         raise exc
     if kind == 'pywarn':
+        cat = WARNING_CATEGORIES[act.get('cat', 'RuntimeWarning')]
         if act.get('when') == 'before':
-            warnings.warn('injected warning before store', RuntimeWarning)
+            warnings.warn('injected warning before store', cat)
         for j, nm in enumerate(endo):
             d['_' + nm][t] = d['_' + nm][t] + fval(act['d'][j])
         if act.get('when') != 'before':
-            warnings.warn('injected warning after store', RuntimeWarning)
+            warnings.warn('injected warning after store', cat)
         return
     if kind == 'npwarn':
         jj, op = act['j'], act['op']
@@ -143,7 +152,7 @@ def _hook_action(self, t, act):
     if kind == 'raise':
         raise EXCEPTIONS[act['exc']](f"injected {act['exc']} in hook")
     if kind == 'pywarn':
-        warnings.warn('injected warning in hook', RuntimeWarning)
+        warnings.warn('injected warning in hook', WARNING_CATEGORIES[act.get('cat', 'RuntimeWarning')])
         return
     if kind == 'setx':
         # modify a non-check variable at t (legal user behaviour in a hook)
